@@ -49,6 +49,9 @@ type Case struct {
 	// Warm: the same ServiceProvider value has processed an ordinary valid login before this message.
 	Trust string `json:"trust,omitempty"`
 	Warm  bool   `json:"warm,omitempty"`
+	// Hooks: the application installed its own (accept-everything) validators - "reqid", "audience" or "both".
+	// They replace the request-ID and audience rules; the time windows hold regardless.
+	Hooks string `json:"hooks,omitempty"`
 	// Noise: options of the SP that concern only what it sends (see spkit.Noise); the verdict must not depend on them
 	Noise uint64 `json:"noise,omitempty"`
 }
@@ -178,6 +181,12 @@ func check(c Case) pbt.Result {
 	}
 	sp := spkit.NewSP(spkit.Config{Trust: c.Trust, AllowIDPInit: c.AllowIDP})
 	spkit.Noise(sp, c.Noise)
+	if c.Hooks == "reqid" || c.Hooks == "both" {
+		sp.ValidateRequestID = func(saml.Response, []string) error { return nil }
+	}
+	if c.Hooks == "audience" || c.Hooks == "both" {
+		sp.ValidateAudienceRestriction = func(*saml.Assertion) error { return nil }
+	}
 	if c.Warm {
 		spkit.WarmUp(sp, c.now())
 	}
@@ -209,6 +218,9 @@ func check(c Case) pbt.Result {
 	}
 	if c.Warm {
 		res.Classes = append(res.Classes, "sp-served-a-login-before")
+	}
+	if c.Hooks != "" {
+		res.Classes = append(res.Classes, "custom-validators:"+c.Hooks)
 	}
 	// model
 	anyInside, allOutside := false, true
@@ -370,6 +382,7 @@ func gen(t *rapid.T) Case {
 		c.Trust = rapid.SampledFrom(spkit.TrustsIDP).Draw(t, "trust")
 	}
 	c.Warm = rapid.IntRange(0, 3).Draw(t, "warm") == 0
+	c.Hooks = rapid.SampledFrom([]string{"", "", "", "reqid", "audience", "both"}).Draw(t, "hooks")
 	if rapid.IntRange(0, 2).Draw(t, "noise?") == 0 {
 		c.Noise = rapid.Uint64Range(1, 255).Draw(t, "noise")
 	}
@@ -427,6 +440,7 @@ func enumLattice(tier string, emit func(Case)) {
 										c := Case{DelayNs: tol[0], SkewNs: tol[1], NowSec: fix.Epoch.Unix() + int64(ti), NowNsec: 0, Layout: layout, Entry: []string{"xml", "post", "artifact"}[(li+idx/stride)%3], Lex: "lib", Resp: r}
 										c.NoDest = layout == "assert" && (idx/stride)%2 == 1
 										c.AllowIDP = (idx/stride)%3 == 1
+										c.Hooks = []string{"", "reqid", "", "audience", "both"}[(idx/stride)%5]
 										varied := AssertionTimes{Issue: is, NotBefore: nb, NotAfter: na, Confs: []int64{cf}, Encrypted: enc}
 										good := AssertionTimes{Issue: far, NotBefore: far, NotAfter: far, Confs: []int64{far}, Encrypted: enc}
 										switch shape {
@@ -462,7 +476,7 @@ func enumLattice(tier string, emit func(Case)) {
 var prop = &pbt.Prop[Case]{
 	ID: "C02",
 	Rule: "cases: a genuinely IdP-signed response whose five kinds of instants (response/assertion IssueInstant, Conditions NotBefore/NotOnOrAfter, each confirmation NotOnOrAfter) are placed at a chosen signed distance from their boundary relative to the controlled library clock; " +
-		"exhaustive lattice {far inside, 1 ms inside, 1 ms outside, far outside}^5 x 6 tolerance settings x 6 shapes (1/2/3 confirmations, two assertions with the varied one first or second, no confirmation) x signed layout (unsigned Responses with and without Destination) x plain/encrypted (complete in thorough, every 9th member in quick), " +
+		"exhaustive lattice {far inside, 1 ms inside, 1 ms outside, far outside}^5 x 6 tolerance settings x 6 shapes (1/2/3 confirmations, two assertions with the varied one first or second, no confirmation) x signed layout (unsigned Responses with and without Destination) x plain/encrypted x AllowIDPInitiated on/off x application validators {none, request-ID, audience, both, all accepting} (complete in thorough, every 9th member in quick), on an SP under any trust configuration that may have served a login before, " +
 		"plus rapid draws with arbitrary margins, tolerances 0..48 h, 1-3 assertions, 0-3 confirmations and lexical forms (zone offsets, 9 fractional digits, zone-less, sub-millisecond digits). " +
 		"oracle: reference model on effective (millisecond-rounded) instants; margins inside (-1 ms, +1 ms) are don't-care. " +
 		"non-trivial: some boundary within 2 ms, or margins on opposite sides, or non-default tolerances. distinct: sha256 of the JSON case.",
